@@ -313,6 +313,34 @@ func init() {
 		return nil
 	})
 
+	// ---- prometheus client metrics (used by the real reference engine): opaque, no-op
+	promPkg := "github.com/prometheus/client_golang/prometheus"
+	mkMetric := func(fr *frame, typeName string) (types.Type, *value) {
+		t := fr.i.prog.ImportedPackage(promPkg).Type(typeName).Object().Type()
+		var cell value = zero(t)
+		return t, &cell
+	}
+	reg(promPkg+".NewGauge", func(fr *frame, args []value) value {
+		t, c := mkMetric(fr, "gauge")
+		return iface{t: types.NewPointer(t), v: c}
+	})
+	reg(promPkg+".NewCounter", func(fr *frame, args []value) value {
+		t, c := mkMetric(fr, "counter")
+		return iface{t: types.NewPointer(t), v: c}
+	})
+	reg(promPkg+".NewSummaryVec", func(fr *frame, args []value) value {
+		_, c := mkMetric(fr, "SummaryVec")
+		return c
+	})
+	reg("(*"+promPkg+".SummaryVec).WithLabelValues", func(fr *frame, args []value) value {
+		t, c := mkMetric(fr, "summary")
+		return iface{t: types.NewPointer(t), v: c}
+	})
+	for _, m := range []string{"(*" + promPkg + ".gauge).Inc", "(*" + promPkg + ".gauge).Dec", "(*" + promPkg + ".gauge).Set", "(*" + promPkg + ".gauge).Add",
+		"(*" + promPkg + ".summary).Observe", "(*" + promPkg + ".counter).Add"} {
+		reg(m, func(fr *frame, args []value) value { return nil })
+	}
+
 	// ---- go-kit log: levels are the identity, Log is a no-op
 	for _, n := range []string{"Error", "Debug", "Info", "Warn"} {
 		reg("github.com/go-kit/log/level."+n, func(fr *frame, args []value) value { return args[0] })
@@ -695,6 +723,9 @@ func init() {
 		}
 		return int(r * 1000000)
 	})
+	reg("(time.Time).UnixNano", func(fr *frame, args []value) value {
+		return binop(fr.i, token.MUL, nil, timeMs(fr, args[0]), int64(1000000))
+	})
 	reg("(time.Time).Add", func(fr *frame, args []value) value {
 		ms := timeMs(fr, args[0])
 		dms := binop(fr.i, token.QUO, nil, args[1], int64(1000000))
@@ -714,7 +745,36 @@ func init() {
 		return binop(fr.i, token.EQL, nil, timeMs(fr, args[0]), timeMs(fr, args[1]))
 	})
 	reg("time.Now", func(fr *frame, args []value) value {
-		panic(pathAbort{kind: abortUnsupported, msg: "time.Now in encoded code"})
+		// wall-clock is outside every claim: a fixed instant (only timers/statistics use it)
+		return structure{symTimeWall, int64(0), (*value)(nil)}
+	})
+	reg("github.com/prometheus/prometheus/util/stats.NewSpanTimer", func(fr *frame, args []value) value {
+		t := fr.i.prog.ImportedPackage("github.com/prometheus/prometheus/util/stats").Type("SpanTimer").Object().Type()
+		var cell value = zero(t)
+		return tuple{&cell, args[0]}
+	})
+	reg("(*github.com/prometheus/prometheus/util/stats.SpanTimer).Finish", func(fr *frame, args []value) value { return nil })
+	reg("go.opentelemetry.io/otel/trace.SpanFromContext", func(fr *frame, args []value) value { return iface{} })
+	reg("go.opentelemetry.io/otel.Tracer", func(fr *frame, args []value) value {
+		t := fr.i.prog.ImportedPackage("go.opentelemetry.io/otel/trace").Type("noopTracer").Object().Type()
+		return iface{t: t, v: zero(t)}
+	})
+	reg("(go.opentelemetry.io/otel/trace.noopTracer).Start", func(fr *frame, args []value) value {
+		t := fr.i.prog.ImportedPackage("go.opentelemetry.io/otel/trace").Type("noopSpan").Object().Type()
+		return tuple{args[1], iface{t: t, v: zero(t)}}
+	})
+	reg("reflect.TypeOf", func(fr *frame, args []value) value {
+		it := args[0].(iface)
+		name := "<nil>"
+		if it.t != nil {
+			name = types.TypeString(it.t, func(p *types.Package) string { return p.Name() })
+		}
+		t := fr.i.prog.ImportedPackage("reflect").Type("rtype").Object().Type()
+		var cell value = structure{name}
+		return iface{t: types.NewPointer(t), v: &cell}
+	})
+	reg("(*reflect.rtype).String", func(fr *frame, args []value) value {
+		return (*ptr(args[0])).(structure)[0].(string)
 	})
 	reg("time.Since", func(fr *frame, args []value) value { return int64(0) })
 
